@@ -12,7 +12,16 @@ const SCENARIOS: [&str; 16] = [
     "get_hit", "get_miss", "get_hit_last_level", "touch_hit", "touch_miss", "set_new", "set_existing", "put_insert", "put_hit",
     "ensure_hit", "ensure_miss", "ensure_promote", "set_temp_file",
 ];
-const SIZES: [usize; 4] = [0, 10, 100, 2000];
+const SIZES_QUICK: [usize; 4] = [0, 10, 100, 2000];
+const SIZES_THOROUGH: [usize; 5] = [0, 10, 100, 2000, 20000];
+
+fn all_sizes() -> &'static [usize] {
+    if crate::props::e1::THOROUGH.load(std::sync::atomic::Ordering::SeqCst) {
+        &SIZES_THOROUGH
+    } else {
+        &SIZES_QUICK
+    }
+}
 
 #[derive(Clone, Debug)]
 pub struct Case {
@@ -242,7 +251,7 @@ fn observe_with(case: &Case, size: usize, ctl: Option<std::sync::Arc<dyn shim::C
 
 pub fn run_case(case: &Case, rep: &mut Report) -> Vec<(String, String)> {
     let mut bad = Vec::new();
-    let sizes: &[usize] = if case.maint > 0 { &[0, 10, 100] } else { &SIZES };
+    let sizes: &[usize] = if case.maint > 0 { &[0, 10, 100] } else { all_sizes() };
     let obs: Vec<Obs> = sizes.iter().map(|&s| observe(case, s)).collect();
     rep.transitions += obs.iter().map(|o| o.events as u64).sum::<u64>();
     for (i, o) in obs.iter().enumerate() {
@@ -291,7 +300,7 @@ pub fn run_case(case: &Case, rep: &mut Report) -> Vec<(String, String)> {
                 "count-depends-on-size".into(),
                 format!(
                     "call counts with {} entries {:?} differ from those with {} entries {:?}",
-                    SIZES[i], o.counts, SIZES[0], obs[0].counts
+                    sizes[i], o.counts, sizes[0], obs[0].counts
                 ),
             ));
         }
@@ -346,9 +355,9 @@ pub fn run_case(case: &Case, rep: &mut Report) -> Vec<(String, String)> {
 }
 
 fn record(case: &Case, rep: &mut Report) {
-    rep.evaluations += SIZES.len() as u64;
-    rep.states += SIZES.len() as u64;
-    rep.traces += SIZES.len() as u64;
+    rep.evaluations += all_sizes().len() as u64;
+    rep.states += all_sizes().len() as u64;
+    rep.traces += all_sizes().len() as u64;
     rep.count("nontrivial_count", 1);
     for (sig, msg) in run_case(case, rep) {
         let msg: String = msg.chars().take(500).collect();
@@ -376,7 +385,7 @@ fn fault_section(shard: Shard, rep: &mut Report) {
                 let case = Case { scenario: sc.to_string(), sharded, depth, checker: false, maint: 0 };
                 let base = observe_with(&case, 10, None);
                 for (k, ev) in base.trace.iter().enumerate() {
-                    for a in plausible(ev, false).into_iter().take(2) {
+                    for a in plausible(ev, false).into_iter().take(if crate::props::e1::THOROUGH.load(std::sync::atomic::Ordering::SeqCst) { 8 } else { 2 }) {
                         no += 1;
                         if !shard.mine(no) {
                             continue;
@@ -431,7 +440,7 @@ fn concurrent_programs() -> Vec<(crate::sched::Program, crate::props::e1::Mode)>
                         threads: e1::own_handles(vec![vec![api(Op::Get(k.clone())), api(Op::Touch(k.clone()))], other], false),
                         create_write_dir: true,
                     },
-                    Mode::Bounded(2),
+                    crate::props::e1::side_bound(),
                 ));
             };
             add("set", vec![api(Op::Set(k.clone(), e1::wval(1, 0, Size::One)))]);
@@ -475,7 +484,7 @@ fn concurrent_check(x: &crate::sched::Execution) -> Vec<(String, String)> {
 pub fn run(_tier: Tier, shard: Shard, rep: &mut Report) {
     rep.rule = "operation scenario {get hit/miss/hit in the last level, touch hit/miss, set new/existing, put insert/hit, ensure \
         hit/miss/promote, set_temp_file, and get/touch/ensure with the key present in every level} x write front-end {plain, sharded(3)} x stack depth 1-3 x checker {off, on} with every \
-        directory pre-populated with 0, 10, 100 and 2000 entries (maintenance scripted not to fire): per-kind call counts identical \
+        directory pre-populated with 0, 10, 100 and 2000 (thorough: also 20000; stack depth up to 4) entries (maintenance scripted not to fire): per-kind call counts identical \
         across the four sizes, no readdir, <= 2 open attempts per cache directory per lookup, peak simultaneously open \
         files + directory streams <= 2 (3 with a checker) from the intercepted open/close stream, nothing left open afterwards \
         (shim fd table and /proc/self/fd), no locking call. Plus, under concurrency: get and touch racing with a set of the same key or with a deleter (all schedules \
@@ -492,7 +501,7 @@ pub fn run(_tier: Tier, shard: Shard, rep: &mut Report) {
     let mut no = 0u64;
     for sc in SCENARIOS.iter() {
         for sharded in [false, true] {
-            for depth in 1..=3usize {
+            for depth in 1..=(if _tier == Tier::Thorough { 4usize } else { 3 }) {
                 for checker in [false, true] {
                     if (sc == &"get_hit_last_level" || sc == &"ensure_promote") && depth == 1 {
                         continue;
